@@ -97,7 +97,7 @@ ASSUME = [
 
 def run(ctx, ops=None):
     vlib.regen(ctx, C07_syms.NAMESPACE, C07_syms.SYMS)
-    obligations, discharged = vlib.standard_proof_steps(ctx)
+    obligations, discharged = vlib.standard_proof_steps(ctx, extra_props=["GilVerif.Props.C07Float"])
     binary, err = vlib.compile_harness(ctx, "harness/C07/main.cpp")
     samples, distinct = [], 0
     if binary is None:
